@@ -161,10 +161,11 @@ def check_base(arg):
 
 def check_alloc(arg):
     """header substitutions x every single allocation failure during the open (allocator seam)"""
-    name, base, lo, hi = arg
-    job = ["mode init", "allocfail 1", "base %s" % base.hex(), "subst %d %d" % (lo, hi)]
+    name, base, lo, hi = arg[:4]
+    mode = arg[4] if len(arg) > 4 else "init"
+    job = (["mode init"] if mode == "init" else ["mode adv", "retry 1"]) + ["allocfail 1", "base %s" % base.hex(), "subst %d %d" % (lo, hi)]
     cases = core.drv("openenum", "\n".join(job) + "\n")
-    res = {"name": name, "n": 0, "opened": [], "bad": [], "allocs": 0}
+    res = {"name": name, "n": 0, "opened": [], "bad": [], "allocs": 0, "mode": mode}
     for c in cases:
         s = c.first("S")
         if not c.done or s is None:
@@ -247,6 +248,8 @@ def run(ctx):
         p = zckref.parse(b)
         for lo in range(0, p.header_len, 6):
             ajobs.append((n, b, lo, min(p.header_len, lo + (2 if quick else 6))))
+            # ... and a caller of the advanced interface that clears the error after a failed step and calls the step again
+            ajobs.append((n, b, lo, min(p.header_len, lo + (2 if quick else 6)), "adv-retry"))
     crashes = 0
     na = 0
     for r in core.pmap(check_alloc, ajobs):
@@ -256,10 +259,10 @@ def run(ctx):
         for pos, v, k in r["opened"]:
             base = bmap[r["name"]]
             p = zckref.parse(base)
-            ctx.violation({"check": "C06", "predicate": "mutant-opens-under-allocation-failure", "region": region(p, pos)},
-                          "%s: header byte %d (%s) %02x->%02x opens when allocation #%d of the open returns NULL" % (
-                              r["name"], pos, region(p, pos), base[pos], v, k),
-                          {"kind": "alloc", "name": r["name"], "base": base.hex(), "pos": pos})
+            ctx.violation({"check": "C06", "predicate": "mutant-opens-under-allocation-failure", "region": region(p, pos), "mode": r["mode"]},
+                          "%s: header byte %d (%s) %02x->%02x opens when allocation #%d of the open returns NULL%s" % (
+                              r["name"], pos, region(p, pos), base[pos], v, k, " (advanced interface, failed step retried after zck_clear_error)" if r["mode"] != "init" else ""),
+                          {"kind": "alloc", "name": r["name"], "base": base.hex(), "pos": pos, "mode": r["mode"]})
     ctx.extra["allocation_failure_part"] = {"bases": len(sel), "allocations_per_open": na, "cases_not_judged_because_the_open_crashed": crashes}
     ctx.bounds["allocation_failures"] = "every single allocation of the open failing x all 255 substitutes at %s header position of %d bases" % (
         "every third" if quick else "every", len(sel))
@@ -277,7 +280,7 @@ def replay(case, quiet=True):
         opened = c.first("E")["opened"] == "1"
         return {"violated": opened != case["expect_open"], "detail": {"opened": opened, "expected": case["expect_open"]}}
     if case["kind"] == "alloc":
-        r = check_alloc((case["name"], bytes.fromhex(case["base"]), case["pos"], case["pos"] + 1))
+        r = check_alloc((case["name"], bytes.fromhex(case["base"]), case["pos"], case["pos"] + 1, case.get("mode", "init")))
         return {"violated": bool(r["opened"]), "detail": r["opened"][:3]}
     if case["kind"] == "rerun":
         r = check_base((case["name"], bytes.fromhex(case["base"]), case["mode"]))
